@@ -28,6 +28,7 @@ import (
 	"strings"
 	"sync"
 	"sync/atomic"
+	"syscall"
 	"time"
 
 	intoto "github.com/in-toto/in-toto-golang/in_toto"
@@ -44,6 +45,9 @@ type input struct {
 	//                                  odd-percent | odd-bracket | relative | dotdot | relative-dotdot | nowrite (non-root only)
 	Caller string   `json:"caller,omitempty"` // state of os.Stdout / os.Stderr of the process that makes the call:
 	//                                  "" (the harness' own) | closed | devfull | pipe-unread | devnull
+	Stdin string `json:"stdin,omitempty"` // standard input of the process that makes the call: "" (the harness' own) |
+	//                                  pipe-idle (open, nothing ever arrives) | pipe-pending (data waiting, writer still open) |
+	//                                  pipe-pending-closed (data waiting, then EOF) | socketpair (idle) | devnull | closed | file
 	Cap    int64    `json:"cap"`    // model parameters (the result does not depend on them)
 	Rchunk int64    `json:"rchunk"`
 	Sched  []int    `json:"sched"`
@@ -51,6 +55,9 @@ type input struct {
 }
 
 const pipeBuf = 65536
+
+// what waits on the caller's standard input in the pipe-pending / file kinds; the call must leave it there
+const stdinData = "pending input of the caller: 0123456789 abcdefghijklmnopqrstuvwxyz\n"
 
 var childBin, workDir string
 
@@ -364,6 +371,47 @@ func runWithCaller(in input) string {
 	case "closed": // the process closes its os.Stdout / os.Stderr itself before the call
 		cmd.Stdout, cmd.Stderr = nil, nil
 	}
+	switch in.Stdin {
+	case "pipe-idle", "pipe-pending", "pipe-pending-closed":
+		r, w, err := os.Pipe()
+		if err != nil {
+			panic(err)
+		}
+		keep = append(keep, r)
+		if in.Stdin != "pipe-idle" {
+			w.WriteString(stdinData)
+		}
+		if in.Stdin == "pipe-pending-closed" {
+			w.Close()
+		} else {
+			keep = append(keep, w) // the write end stays open in this process: no EOF, nothing more arrives
+		}
+		cmd.Stdin = r
+	case "socketpair":
+		fds, err := syscall.Socketpair(syscall.AF_UNIX, syscall.SOCK_STREAM|syscall.SOCK_CLOEXEC, 0)
+		if err != nil {
+			return "SKIP(socketpair)"
+		}
+		a, b := os.NewFile(uintptr(fds[0]), "sock-a"), os.NewFile(uintptr(fds[1]), "sock-b")
+		keep = append(keep, a, b)
+		cmd.Stdin = a
+	case "devnull", "closed": // closed: the process closes its os.Stdin itself before the call
+		cmd.Stdin = nil
+	case "file":
+		fp := filepath.Join(tmp, "stdin.txt")
+		os.WriteFile(fp, []byte(stdinData), 0o644)
+		f, err := os.Open(fp)
+		if err != nil {
+			panic(err)
+		}
+		keep = append(keep, f)
+		cmd.Stdin = f
+	}
+	if in.Stdin != "" {
+		// these probes are about returning at all; 10 s is far beyond a complete run (some 10 ms)
+		// even with the machine fully loaded
+		cmd.Env = append(os.Environ(), "VERIF_C14_DEADLINE_MS=10000")
+	}
 	if err := cmd.Start(); err != nil {
 		panic(err)
 	}
@@ -380,14 +428,14 @@ func runWithCaller(in input) string {
 	if err != nil {
 		return "NORESULT"
 	}
-	if string(b) == "HANG" {
+	if strings.HasPrefix(string(b), "HANG") {
 		atomic.AddInt32(&hangs, 1)
 	}
 	return string(b)
 }
 
 func runImpl(in input) string {
-	if in.Caller != "" {
+	if in.Caller != "" || in.Stdin != "" {
 		return runWithCaller(in)
 	}
 	args := in.args()
@@ -802,6 +850,20 @@ func gen(r *lib.Rng, tier string) []gcase {
 		out[len(out)-1].in.Caller = c
 	}
 
+	// the standard input of the calling process: the call returns once the command has ended whatever
+	// is (not) happening there, and leaves the caller's input alone
+	for _, k := range []string{"pipe-idle", "pipe-pending", "pipe-pending-closed", "socketpair", "devnull", "closed", "file"} {
+		kl := "caller-stdin-" + k
+		add(kl, R, child, inh, "x0") // exits at once, reads nothing
+		out[len(out)-1].in.Stdin = k
+		add(kl, R, child, inh, "o200000", "e100000", "x3") // writes a lot
+		out[len(out)-1].in.Stdin = k
+		add(kl, I, child, inh, "o10", "e5")
+		out[len(out)-1].in.Stdin = k
+		add(kl, "RunInspections", child, "plain", "e70000", "o5", "x0")
+		out[len(out)-1].in.Stdin = k
+	}
+
 	// --- random interleavings ---
 	for i := 0; i < nRandom; i++ {
 		rr := r.Fork()
@@ -964,8 +1026,32 @@ func main() {
 			os.Stdout.Close()
 			os.Stderr.Close()
 		}
-		c.Input.Caller = ""
-		os.WriteFile(os.Args[5], []byte(runImpl(c.Input)), 0o644)
+		stdinKind := c.Input.Stdin
+		if stdinKind == "closed" {
+			os.Stdin.Close()
+		}
+		c.Input.Caller, c.Input.Stdin = "", ""
+		obs := runImpl(c.Input)
+		// the caller's own standard input must be where it was: what was waiting there is still readable
+		switch stdinKind {
+		case "pipe-pending", "pipe-pending-closed", "file":
+			if stdinKind != "file" {
+				syscall.SetNonblock(0, true) // nothing there -> EAGAIN instead of blocking
+			}
+			buf := make([]byte, len(stdinData)+16)
+			got := 0
+			for got < len(buf) {
+				n, err := syscall.Read(0, buf[got:])
+				if n <= 0 || err != nil {
+					break
+				}
+				got += n
+			}
+			if string(buf[:got]) != stdinData {
+				obs += fmt.Sprintf(" STDIN-CONSUMED(%d of %d bytes left)", got, len(stdinData))
+			}
+		}
+		os.WriteFile(os.Args[5], []byte(obs), 0o644)
 	case "replay":
 		b, err := os.ReadFile(os.Args[2])
 		if err != nil {
